@@ -1720,3 +1720,113 @@ def free_div_rem(m, mt, args, tys, dty):
         raise Panic('DivByZero', 'div_rem by zero')
     q, r = m.tdivrem(x, y)
     return Agg('tuple', '()', [q, r])
+
+
+# ------------------------------------------------------------------ comparison support (C02)
+
+@summary(r'<&?%s as Ord>::cmp' % BIG)
+def big_ord_cmp(m, mt, args, tys, dty):
+    x, y = deref(args[0]), deref(args[1])
+    if not is_sym(x) and not is_sym(y):
+        return ordering((x > y) - (x < y))
+    k = m.choose([x < y, x == y, x > y])
+    return ordering(k - 1)
+
+
+@summary(r'<num_bigint::Sign as Ord>::cmp')
+def sign_ord_cmp(m, mt, args, tys, dty):
+    order = {'Minus': 0, 'NoSign': 1, 'Plus': 2}
+    a, b = order[deref(args[0]).variant], order[deref(args[1]).variant]
+    return ordering((a > b) - (a < b))
+
+
+@summary(r'<std::cmp::Ordering as PartialEq>::(eq|ne)')
+def ordering_eq(m, mt, args, tys, dty):
+    r = deref(args[0]).variant == deref(args[1]).variant
+    return r if mt.group(1) == 'eq' else not r
+
+
+@summary(r'std::cmp::Ordering::reverse')
+def ordering_reverse(m, mt, args, tys, dty):
+    return mk_enum('Ordering', {'Less': 'Greater', 'Greater': 'Less', 'Equal': 'Equal'}[deref(args[0]).variant])
+
+
+@summary(r'<(%s) as (?:num_traits::)?NumCast>::from::<(%s)>' % (INT, INT))
+def numcast_from(m, mt, args, tys, dty):
+    x = args[0]
+    lo, hi = INT_RANGE[mt.group(1)]
+    ok = z3.And(x >= lo, x <= hi) if is_sym(x) else (lo <= x <= hi)
+    return some(x) if m.branch_bool(ok) else NONE()
+
+
+@summary(r'<(%s) as (?:std::convert::)?TryFrom<&%s>>::try_from' % (INT, BIG))
+def prim_try_from_big(m, mt, args, tys, dty):
+    x = deref(args[0])
+    lo, hi = INT_RANGE[mt.group(1)]
+    ok = z3.And(x >= lo, x <= hi) if is_sym(x) else (lo <= x <= hi)
+    if m.branch_bool(ok):
+        return mk_enum('Result', 'Ok', [x])
+    return mk_enum('Result', 'Err', [Agg('struct', 'TryFromBigIntError', [])])
+
+
+@summary(r'Result::<.*>::ok')
+def result_ok(m, mt, args, tys, dty):
+    r = args[0]
+    return some(r.fields[0]) if r.variant == 'Ok' else NONE()
+
+
+@summary(r'(?:num_traits::)?checked_pow::<(%s)>' % INT)
+def free_checked_pow(m, mt, args, tys, dty):
+    base, e = args
+    e = m.concretize(e)
+    if is_sym(base):
+        raise Unsupported('checked_pow symbolic base')
+    if e > 100000:
+        return NONE()
+    v = base ** e
+    lo, hi = INT_RANGE[mt.group(1)]
+    return some(v) if lo <= v <= hi else NONE()
+
+
+@summary(r'<(%s) as (?:num_traits::)?Checked(Add|Sub|Mul)>::checked_(add|sub|mul)' % INT)
+def trait_checked_arith(m, mt, args, tys, dty):
+    x, y = deref(args[0]), deref(args[1])
+    lo, hi = INT_RANGE[mt.group(1)]
+    v = {'add': x + y, 'sub': x - y, 'mul': x * y}[mt.group(3)]
+    ok = z3.And(v >= lo, v <= hi) if is_sym(v) else (lo <= v <= hi)
+    return some(v) if m.branch_bool(ok) else NONE()
+
+
+@summary(r'Option::<.*>::or_else::<.*>')
+def option_or_else(m, mt, args, tys, dty):
+    opt, f = args
+    if opt.variant == 'Some':
+        return opt
+    return call_callable(m, f, [], dty)
+
+
+@summary(r'<Option<.*> as Try>::branch')
+def option_branch(m, mt, args, tys, dty):
+    o = args[0]
+    if o.variant == 'Some':
+        return Agg('enum', 'ControlFlow', [o.fields[0]], 'Continue')
+    return Agg('enum', 'ControlFlow', [NONE()], 'Break')
+
+
+@summary(r'<Option<.*> as FromResidual<Option<Infallible>>>::from_residual')
+def option_from_residual(m, mt, args, tys, dty):
+    return NONE()
+
+
+@summary(r'core::slice::<impl \[.*\]>::split_at')
+def slice_split_at(m, mt, args, tys, dty):
+    sl = as_slice(args[0])
+    i = m.concretize(args[1])
+    if i > len(sl):
+        raise Panic('IndexOOB', 'slice split_at')
+    return Agg('tuple', '()', [SliceV(sl.base, sl.lo, sl.lo + i), SliceV(sl.base, sl.lo + i, sl.hi)])
+
+
+@summary(r'core::slice::<impl \[.*\]>::len')
+def slice_len(m, mt, args, tys, dty):
+    return len(as_slice(args[0]))
